@@ -3,7 +3,7 @@ import enums
 from common import Result
 from e3 import Config, Subj
 from e3check import compare_transcripts, explore
-from enums import ALL_REPRS, REPRS, family_A, family_F, family_H, family_L, family_M, family_R
+from enums import ALL_REPRS, REPRS, family_A, family_F, family_H, family_L, family_M, family_P, family_R
 
 QUICK_L_REPRS = ["i8", "u8", "i16", "u64"]
 THOROUGH_F3_REPRS = ["i8", "u8", "i16", "u16", "i64", "u64", "i128", "usize"]
@@ -22,7 +22,11 @@ def base_decls(tier, with_H=True, quick_reprs=None, renames=True, f3_reprs=None)
             out += family_A(r)
         for r in ("i8", "u16", "i32", "u64"):
             out += family_R(r)
+        for r in ("usize", "isize", "i64", "u128"):
+            out += family_P(r)
     else:
+        for r in ("i32", "u32", "i64", "u64", "i128", "u128", "isize", "usize"):
+            out += family_P(r)
         for r in ALL_REPRS:
             out += family_A(r)
             out += family_R(r)
@@ -56,6 +60,22 @@ def sorted_subjects(feats, prefix, **opts):
             for sf in ({"value": None}, {"name": None, "value": None}):
                 subs.append(Subj("%s%03d" % (prefix, k), d, Config(list(feats) + [("sorted", sf)]), **opts))
                 k += 1
+    return subs
+
+
+def sorted_name_subjects(feats, prefix, **opts):
+    """`sorted(name)` constrains the DECLARATION order of the names only: the discriminants may go any way, and every table
+    the derive builds is in value order. Names ascending in declaration order, values not."""
+    from enums import EnumDecl, Variant
+    subs = []
+    k = 0
+    for r, valsets in (("u8", ([4, 1, 3, 5, 2], [9, 0], [3, 2, 1], [7, 200, 8, 100])), ("i16", ([5, -3, 4, -4, 0, 300], [2, 1, 0, -1, -2, -3, -4]))):
+        for vals in valsets:
+            names = ["Alpha", "Beta", "Delta", "Epsilon", "Gamma", "Omega", "Zeta"]
+            variants = [Variant(names[i], lit=str(v)) for i, v in enumerate(vals)]
+            d = EnumDecl(r, variants, tag={"family": "sorted-name"})
+            subs.append(Subj("%s%03d" % (prefix, k), d, Config(list(feats) + [("sorted", {"name": None})]), **opts))
+            k += 1
     return subs
 
 
@@ -135,6 +155,7 @@ def c03(tier):
     cfgs.append(("n", Config(["as_str", "names", "Debug", "Display", "IntoStr"])))   # names steers auto
     cfgs.append(("d", Config(["Debug"])))   # auto-enabled private as_str only
     subs = mk_subjects(decls, cfgs) + sorted_subjects(cfgs[1][1].feats, "z") + sorted_subjects(cfgs[0][1].feats, "y")
+    subs += sorted_name_subjects(cfgs[1][1].feats, "x") + sorted_name_subjects(cfgs[3][1].feats, "w")
     explore(res, "%s/c03" % tier, subs, phases=["str"])
     finish_common(res, decls, subs,
                   "states = (enum, variant) pairs in every as_str mode; transitions = as_str/Display/Debug/IntoStr calls; "
@@ -164,6 +185,9 @@ def c04(tier):
                     subs.append(Subj("s%05d_%s" % (i, suf), d, c))
     else:
         subs = mk_subjects(decls, [("_" + s, c) for s, c in cfgs])
+    for suf, c in cfgs:
+        subs += sorted_name_subjects(c.feats, "x%s_" % suf)
+    subs += sorted_name_subjects([("from_str", {}), "names"], "xn_") + sorted_name_subjects([("FromStr", {}), "names", "as_str"], "xm_")
     merged = explore(res, "%s/c04" % tier, subs, phases=["from_str"])
     # with duplicate names the same variant must be chosen in every mode: compare transcript hashes per enum
     compare_transcripts(res, merged, subs, lambda s: s.sid.split("_")[0], "mode-dependent-from_str",
@@ -358,6 +382,7 @@ def c08(tier):
             subs.append(Subj("s%05d%s" % (i, suf), d, c, bounds=b, weight=60 if big else None))
     subs += sorted_subjects(["names", "iter", "as_str"], "z", bounds=dict(x1_depth=2, x2_extra=1, x2_cap=5))
     subs += sorted_subjects(["names"], "y", bounds=dict(x1_depth=2, x2_extra=1, x2_cap=5))
+    subs += sorted_name_subjects(["names", "iter", "as_str", "from_str"], "x", bounds=dict(x1_depth=2, x2_extra=1, x2_cap=5))
     explore(res, "%s/c08" % tier, subs, phases=["names"])
     finish_common(res, decls, subs,
                   "states = operation histories on names(); transitions = operations, observations, consumers, zip/as_str alignment; "
